@@ -208,6 +208,66 @@ func scenario(pop population, faults int) *explore.Scenario {
 	return sc
 }
 
+// defaultFirstUse: the package-level Refresh() is the first use of the default cache in the
+// process (the package state is reset before every execution): same verdict as for any cache.
+func defaultFirstUse(pop population, first string) *explore.Scenario {
+	sc := &explore.Scenario{Name: pop.Name + " default-cache first use: " + first, MaxSteps: 100000}
+	dirList := []string{"d0", "missing", "d1"}
+	sc.New = func() *explore.Instance {
+		root := filepath.Join(scratch, "x")
+		_ = os.RemoveAll(root)
+		tree := dirmodel.NewTree()
+		for p, k := range pop.Files {
+			d, n := filepath.Split(p)
+			tree.Set(filepath.Clean(d), n, k)
+		}
+		_ = tree.Materialise(root, []string{"d0", "d1"})
+		vfs.Reset(root)
+		abs := func(d string) string { return filepath.Join(root, d) }
+		var paths []string
+		for _, d := range dirList {
+			paths = append(paths, abs(d))
+		}
+		var firstErr, secondErr error
+		var obs dirmodel.Observation
+		in := &explore.Instance{Names: []string{"main"}}
+		in.Threads = []func(){func() {
+			cdi.DefaultSpecDirs = paths
+			switch first {
+			case "Refresh":
+				firstErr = cdi.Refresh()
+			case "Configure(manual)+Refresh":
+				_ = cdi.Configure(cdi.WithAutoRefresh(false))
+				firstErr = cdi.Refresh()
+			case "GetErrors+Refresh":
+				_ = cdi.GetErrors()
+				firstErr = cdi.Refresh()
+			}
+			secondErr = cdi.Refresh()
+			obs = dirmodel.Observe(cdi.GetDefaultCache())
+			_ = cdi.Configure(cdi.WithAutoRefresh(false))
+		}}
+		in.Check = func(e *sched.Exec) (string, string, any) {
+			want := dirmodel.Resolve(dirList, tree, func(d string) string { return filepath.Clean(abs(d)) })
+			if ok, what, detail := obs.Check(want); !ok {
+				return "default-cache:isolation:" + what, fmt.Sprintf("default cache (first use: %s) on population %s: %s", first, pop.Name, detail), nil
+			}
+			for i, err := range []error{firstErr, secondErr} {
+				if len(want.Invalid) > 0 && err == nil {
+					return fmt.Sprintf("default-cache:refresh-returns-nil-with-file-in-error:%s:call-%d", first, i+1), fmt.Sprintf("package-level Refresh() (first use of the default cache: %s; call %d) returned nil although %v are in error", first, i+1, want.Invalid), nil
+				}
+				if len(want.Invalid) == 0 && err != nil {
+					return fmt.Sprintf("default-cache:refresh-error-with-everything-valid:%s:call-%d", first, i+1), fmt.Sprintf("package-level Refresh() returned %v although every Spec file is valid", err), nil
+				}
+			}
+			return "", "", nil
+		}
+		in.Observe = func() string { return fmt.Sprintf("default first=%s errs=%v,%v", first, firstErr != nil, secondErr != nil) }
+		return in
+	}
+	return sc
+}
+
 func classOf(pf phaseFaults) string {
 	var c []string
 	for _, e := range pf.files {
@@ -252,6 +312,19 @@ func main() {
 		out.Capped = out.Capped || res.Capped
 		if res.Infra != "" {
 			out.Infra = res.Infra
+		}
+		for _, first := range []string{"Refresh", "Configure(manual)+Refresh", "GetErrors+Refresh"} {
+			res := explore.Explore(defaultFirstUse(pop, first), deadline)
+			out.Scenarios++
+			out.Executions += res.Executions
+			out.Points += res.Points
+			for k, n := range res.Outcomes {
+				out.Outcomes[pop.Name+" "+k] += n
+			}
+			out.Violations = append(out.Violations, res.Violations...)
+			if res.Infra != "" {
+				out.Infra = res.Infra
+			}
 		}
 	}
 	_ = json.NewEncoder(os.Stdout).Encode(out)
